@@ -1257,6 +1257,8 @@ impl LsmTree {
         if let Some(log_num) = log_num {
             edit.info('L', &format!("{log_num}"))?;
         }
+        #[cfg(rescrv_blue_verif)]
+        crate::verif::probe("ingest.before_manifest");
         self.apply_manifest_ingest(acc, edit, metadata)?;
         Ok(())
     }
@@ -1496,7 +1498,11 @@ impl LsmTree {
                     .with_debug_field("discard_setsum", discard_setsum.hexdigest()),
             );
         }
+        #[cfg(rescrv_blue_verif)]
+        crate::verif::probe("compaction.before_manifest");
         let ret = self.apply_manifest_compaction(compaction, discard_setsum, mani_edit, outputs);
+        #[cfg(rescrv_blue_verif)]
+        crate::verif::probe("compaction.after_manifest");
         for path in paths.into_iter() {
             COMPACTION_REMOVE.click();
             remove_file(&path).with_debug_field("path", &path)?;
